@@ -457,6 +457,9 @@ func argIndexLERec(e *Env, v ssa.Value, depth int) (LE, bool) {
 		if f := forwarded(u); f != nil {
 			return argIndexLERec(e, f, depth+1)
 		}
+		if w, we := e.ctorField(u); w != nil {
+			return argIndexLERec(we, w, depth+1) // a field of a parameter object filled by its constructor
+		}
 		v = u.X
 	}
 	switch x := v.(type) {
